@@ -104,7 +104,7 @@ def _work(item) -> Dict[str, Any]:
         y = node(eq.target.name, eq.target.off)
         sym = next(s for s in symbols if s.name == eq.target.name)
         edges = sorted({(x.split('[')[0], _off(x)) for x in G.predecessors(y) if x in varlike})
-        ctx = Ctx(budget_s=120)
+        ctx = Ctx(budget_s=60)
         tz, Lz = z3.Int('t'), z3.Int('L')
         ctx.assume(Lz >= lags + leads + 1, 'L >= lags+leads+1')
         ctx.assume(z3.And(tz >= lags, tz <= Lz - 1 - leads), 'feasible period')
@@ -228,7 +228,7 @@ def main() -> int:
     for k in ('fixed', 'exhaustive', 'conditional', 'sampled'):
         for p in ps[k]:
             items.append((p, None))
-    results = run_items(work, items)
+    results = run_items(work, items, soft_items=ps['sampled'])
     p0 = (Eq(Var('Y'), Bin('+', Var('X', off=-1), Var('Z'))),)
     tw = [work((p0, 'drop_edge')), work((p0, 'phantom_edge'))]
     c01_finish(rep, results, tw, ps, tier, extra={
